@@ -465,7 +465,7 @@ static void run_cmd(char *line)
   }
   else if (!strcmp(c, "GET") || !strcmp(c, "GETD")) {
     econf_file *kf = strcmp(tok[1], "-") ? slot[sl(tok[1])] : NULL;
-    char *g = dec(tok[3], NULL), *k = dec(tok[4], NULL);
+    char *g = decc(tok[3], NULL), *k = decc(tok[4], NULL);
     do_get(kf, tok[2], g, k, !strcmp(c, "GETD") ? tok[5] : NULL); free(g); free(k);
   }
   else if (!strcmp(c, "GROUPS")) {
@@ -483,6 +483,15 @@ static void run_cmd(char *line)
     if (!e) { for (size_t i = 0; i < nk; i++) { printf(" "); put_hex(ks[i]); } econf_freeArray(ks); }
     printf("\n"); free(g);
   }
+  else if (!strcmp(c, "KEYSUM")) { /* KEYSUM slot group : sums of all section names and of the group's keys */
+    econf_file *kf = slot[sl(tok[1])];
+    char *g = decc(tok[2], NULL); size_t ng = 0, nk = 0; char **gr = NULL, **ks = NULL;
+    econf_err e1 = econf_getGroups(kf, &ng, &gr), e2 = econf_getKeys(kf, g, &nk, &ks);
+    printf("keysum E%d E%d", e1, e2);
+    if (!e1) { for (size_t i = 0; i < ng; i++) { printf(" g "); put_sum(gr[i]); } econf_freeArray(gr); }
+    if (!e2) { for (size_t i = 0; i < nk; i++) { printf(" k "); put_sum(ks[i]); } econf_freeArray(ks); }
+    printf("\n"); free(g);
+  }
   else if (!strcmp(c, "EXT")) {
     econf_file *kf = strcmp(tok[1], "-") ? slot[sl(tok[1])] : NULL;
     char *g = dec(tok[2], NULL), *k = dec(tok[3], NULL);
@@ -490,7 +499,7 @@ static void run_cmd(char *line)
   }
   else if (!strcmp(c, "EXTSUM")) { /* lengths and hashes only */
     econf_file *kf = slot[sl(tok[1])];
-    char *g = dec(tok[2], NULL), *k = dec(tok[3], NULL);
+    char *g = decc(tok[2], NULL), *k = decc(tok[3], NULL);
     econf_ext_value *ev = NULL; econf_err e = econf_getExtValue(kf, g, k, &ev);
     printf("extsum E%d", e);
     if (!e && ev) {
@@ -537,6 +546,7 @@ static void run_cmd(char *line)
   else if (!strcmp(c, "MARK")) { fflush(stdout); mark_bytes = __sanitizer_get_current_allocated_bytes ? __sanitizer_get_current_allocated_bytes() : 0; }
   else if (!strcmp(c, "LEAK")) {
     fflush(stdout);
+    free(cb_suffix); cb_suffix = NULL;   /* the harness' own allocation */
     size_t now = __sanitizer_get_current_allocated_bytes ? __sanitizer_get_current_allocated_bytes() : 0;
     printf("leak %d\n", now != mark_bytes);
     if (now != mark_bytes) fprintf(stderr, "leak: %zu bytes\n", now - mark_bytes);
